@@ -96,8 +96,9 @@ package keeper
 //@   requires allSupWF && escrowInv && countersInv && allRecWF
 //@   requires has(htlcs, id) && h == get(htlcs, id) && h.State == OPEN
 //@   modifies bal, supply, htlcs, supplies
-//@   lemma @entry sumsGe(htlcs, id, anydenom(2))
+//@   lemma @entry sumsGeAll(htlcs, id)
 //@   lemma @return sumsUpd(old(htlcs), id, get(htlcs, id), anydenom(1)) if err == nil
+//@   ensures @C03,C04,C13 never_fails: err == nil
 //@   ensures @C04 keeps_escrow:   err == nil ==> bal(MOD, anydenom(1)) == ESC(htlcs, anydenom(1))
 //@   ensures @C04 keeps_counters: err == nil ==> CIN(anydenom(1)) == INC(htlcs, anydenom(1)) && COUT(anydenom(1)) == OUT(htlcs, anydenom(1))
 //@   ensures @C04 keeps_wf:       err == nil ==> allSupWF
@@ -151,6 +152,7 @@ package keeper
 //@   requires supWF(coin.Denom) && coin.Amount >= 0
 //@   let r = SUP(coin.Denom)
 //@   modifies supplies
+//@   ensures succeeds: old(has(supplies, coin.Denom)) && r.IncomingSupply.Amount >= coin.Amount ==> err == nil
 //@   ensures counted: err == nil ==> old(has(supplies, coin.Denom)) && r.IncomingSupply.Amount >= coin.Amount
 //@                    && supplies == set(old(supplies), coin.Denom, with(r, "IncomingSupply", addTo(r.IncomingSupply, 0 - coin.Amount)))
 //@   ensures keeps_wf: err == nil ==> supWF(coin.Denom)
@@ -173,6 +175,7 @@ package keeper
 //@   requires supWF(coin.Denom) && coin.Amount >= 0
 //@   let r = SUP(coin.Denom)
 //@   modifies supplies
+//@   ensures succeeds: old(has(supplies, coin.Denom)) && r.OutgoingSupply.Amount >= coin.Amount ==> err == nil
 //@   ensures counted: err == nil ==> old(has(supplies, coin.Denom)) && r.OutgoingSupply.Amount >= coin.Amount
 //@                    && supplies == set(old(supplies), coin.Denom, with(r, "OutgoingSupply", addTo(r.OutgoingSupply, 0 - coin.Amount)))
 //@   ensures keeps_wf: err == nil ==> supWF(coin.Denom)
@@ -258,6 +261,9 @@ package keeper
 //@   let r = SUP(c0.Denom)
 //@   modifies bal, supplies
 //@   ensures direction: err == nil ==> (direction == INCOMING || direction == OUTGOING) && old(has(supplies, c0.Denom))
+//@   ensures succeeds_incoming: direction == INCOMING && old(has(supplies, c0.Denom)) && r.IncomingSupply.Amount >= c0.Amount ==> err == nil
+//@   ensures succeeds_outgoing: direction == OUTGOING && old(has(supplies, c0.Denom)) && r.OutgoingSupply.Amount >= c0.Amount && !blocked[sender]
+//@                              && (forall d:Str :: old(bal(MOD, d)) >= amt(amount, d)) ==> err == nil
 //@   ensures incoming:  err == nil && direction == INCOMING ==> bal == old(bal)
 //@                      && supplies == set(old(supplies), c0.Denom, with(r, "IncomingSupply", addTo(r.IncomingSupply, 0 - c0.Amount)))
 //@   ensures outgoing:  err == nil && direction == OUTGOING ==> bal == payOut(old(bal), sender, amount)
@@ -294,3 +300,40 @@ package keeper
 //@                        && h.Amount == addcoin(nocoins(), coinat(h.Amount, 0).Denom, coinat(h.Amount, 0).Amount))
 //@      && (forall d:Str :: amt(h.Amount, d) >= 0)
 //@ define allRecWF = forall i:Bytes :: has(htlcs, i) ==> recWF(get(htlcs, i))
+
+// ---------------------------------------------------------------------------------------------
+// Expiry queue and begin-block refunds (C03 refund at expiry, C13 no halt / exactly once)
+
+// every queue entry refers to an open contract that expires at that height
+//@ define queueInv = forall q:Int :: forall i:Bytes :: has(queue, q, i) ==> has(htlcs, i) && get(htlcs, i).State == OPEN && get(htlcs, i).ExpirationHeight == q
+//@ axiom sumsGeAll(H, i)
+//@   ensures forall d:Str :: ESC(H, d) >= wEsc(H, i, d) && INC(H, d) >= wInc(H, i, d) && OUT(H, d) >= wOut(H, i, d)
+
+//@ family prevTime key global:types.PreviousBlockTimeKey value bytes
+
+// Timestamp (de)serialisation through gogoproto length-prefixed encoding: assumed contracts (not verified).
+//@ func Keeper.GetPreviousBlockTime
+//@   property C03, C04, C13
+//@   trusted
+//@   returns blockTime, found
+//@   nopanic
+//@ end
+//@ func Keeper.SetPreviousBlockTime
+//@   property C03, C04, C13
+//@   trusted
+//@   modifies prevTime
+//@   nopanic
+//@ end
+
+// The expiry iteration (helper with callback; inlined into BeginBlocker together with the closure).
+//@ func Keeper.IterateHTLCExpiredQueueByHeight
+//@   inline
+//@   invariant #1 pos:   0 <= it_idx && it_idx <= it_n
+//@   invariant #1 inv:   allSupWF && escrowInv && countersInv && allRecWF
+//@   invariant #1 todo:  forall j:Int :: it_idx <= j && j < it_n ==> has(htlcs, it_seq[j].k1) && get(htlcs, it_seq[j].k1).State == OPEN
+//@                       && get(htlcs, it_seq[j].k1) == old(get(htlcs, it_seq[j].k1)) && has(queue, height, it_seq[j].k1)
+//@   invariant #1 done:  forall j:Int :: 0 <= j && j < it_idx ==> get(htlcs, it_seq[j].k1).State == REFUNDED && !has(queue, height, it_seq[j].k1)
+//@                       && get(htlcs, it_seq[j].k1) == closed(old(get(htlcs, it_seq[j].k1)), REFUNDED, height)
+//@   invariant #1 others: forall i:Bytes :: !old(has(queue, height, i)) ==> get(htlcs, i) == old(get(htlcs, i)) && has(htlcs, i) == old(has(htlcs, i))
+//@   invariant #1 qframe: forall q:Int :: forall i:Bytes :: q != height ==> has(queue, q, i) == old(has(queue, q, i))
+//@ end
